@@ -79,7 +79,7 @@ func dropUnused(p *Plan) *Plan {
 	usedC := map[int]bool{}
 	for _, op := range q.Ops {
 		switch op.K {
-		case "lint", "repeat", "probe":
+		case "lint", "repeat", "probe", "direct":
 			usedO[op.Obj] = true
 		case "setcfg", "loadcfg":
 			if op.Cfg >= 0 {
@@ -106,7 +106,7 @@ func dropUnused(p *Plan) *Plan {
 	for i := range q.Ops {
 		op := &q.Ops[i]
 		switch op.K {
-		case "lint", "repeat", "probe":
+		case "lint", "repeat", "probe", "direct":
 			op.Obj = mo[op.Obj]
 		case "setcfg", "loadcfg":
 			if op.Cfg >= 0 {
